@@ -465,6 +465,70 @@ func (c *ctx) limits() {
 	}
 }
 
+// discardSpace: every composition of a datagram of 2..4 units x every arrival order (arrival i at
+// t0+i s) x one DiscardOlderThan before every arrival but the first x every cut-off at, and half
+// a second after, each earlier arrival time (and one second after the latest). Model: the partial
+// datagram was last touched at the latest arrival so far; it is forgotten iff that time lies
+// before the cut-off; forgotten fragments never contribute, kept ones still complete.
+func (c *ctx) discardSpace() {
+	for n := 2; n <= 4; n++ {
+		for _, parts := range compositions(n) {
+			if len(parts) == 1 {
+				continue
+			}
+			frs := make([]frag, len(parts))
+			for i, p := range parts {
+				frs[i] = frag{0, p[0], p[1], p[1] != n}
+			}
+			permutations(len(frs), func(p []int) {
+				arr := make([]frag, len(p))
+				for i, j := range p {
+					arr[i] = frs[j]
+				}
+				for k := 1; k < len(arr); k++ {
+					var cuts []time.Duration
+					for j := 0; j < k; j++ {
+						cuts = append(cuts, time.Duration(j)*time.Second, time.Duration(j)*time.Second+500*time.Millisecond)
+					}
+					cuts = append(cuts, time.Duration(k)*time.Second)
+					for _, cut := range cuts {
+						func() {
+							defer c.guard("discard")
+							d := ip4defrag.NewIPv4Defragmenter()
+							held := 0
+							ex := map[string]any{"family": "discard", "arrivals": fmt.Sprint(arr), "discard_before_arrival": k, "cut_off_s": cut.Seconds()}
+							for i, f := range arr {
+								if i == k {
+									d.DiscardOlderThan(t0.Add(cut))
+									if time.Duration(k-1)*time.Second < cut {
+										held = 0 // last touched before the cut-off: forgotten
+									}
+								}
+								out, err := d.DefragIPv4WithTimestamp(mk4(f, 20), t0.Add(time.Duration(i)*time.Second))
+								held++
+								atomic.AddInt64(&c.evals, 1)
+								complete := held == len(arr)
+								switch {
+								case out != nil && !complete:
+									c.fail("discard|forgotten-fragment-contributed", fmt.Sprintf("arrival %d (%v) returned a datagram although fragments older than the cut-off had been discarded", i, f), int64(len(arr)), ex)
+									return
+								case out == nil && complete:
+									c.fail("discard|recent-partial-datagram-forgotten", fmt.Sprintf("arrival %d (%v): all fragments are held (the datagram was last touched at %ds, cut-off %.1fs) but nothing was returned (err %v)", i, f, k-1, cut.Seconds(), err), int64(len(arr)), ex)
+									return
+								case out != nil:
+									if w := check4(out, arr, 0, 20); w != "" {
+										c.fail("discard|"+w[:indexColon(w)], w, int64(len(arr)), ex)
+									}
+								}
+							}
+						}()
+					}
+				}
+			})
+		}
+	}
+}
+
 func mk4raw(off, units int, mf bool) *layers.IPv4 {
 	return mk4(frag{0, off, off + units, mf}, 20)
 }
@@ -554,6 +618,7 @@ func main() {
 	c.hostileSpace(hostN, hostDepth)
 	e2 := atomic.LoadInt64(&c.evals)
 	c.limits()
+	c.discardSpace()
 	c.ipv6Space(v6N)
 	e3 := atomic.LoadInt64(&c.evals)
 	n := 0
@@ -564,7 +629,7 @@ func main() {
 	r.Coverage["hostile_fragment_sequences"] = e2 - e1
 	r.Coverage["limit_discard_and_ipv6_sequences"] = e3 - e2
 	r.Coverage["samples"] = []any{map[string]any{"family": "benign", "header_bytes": 24, "arrivals": "[id0[2,3)+MF id0[0,2)+MF id0[3,6)]"}, map[string]any{"family": "hostile", "fragments": "[id0[0,2)+MF id0[3,4) id0[1,2)+MF]"}}
-	r.Coverage["rule"] = fmt.Sprintf("benign: every composition of N=1..%d 8-byte units into >=2 fragments x every arrival order x header length {20,24,40,60} (options on every fragment) and {24|20, 40|24, 60|20} (first fragment | later fragments: options that are not copied) x one duplicated fragment at every position, and for N<=3 every merge with the two fragments of a second datagram: nothing may be returned before the last missing fragment, then exactly one datagram whose payload bytes (which encode datagram id and offset) are the original, MF/offset cleared, Length = IHL*4+len(payload). hostile: every sequence of <=%d fragments over all [a,b)xMF for a %d-unit datagram: any datagram returned must consist only of bytes sent for their own offset, all of them received, ending at a seen last fragment. limits: undersized/oversize/overrun fragments refused, unfragmented and DF packets returned as the same pointer, DiscardOlderThan. IPv6: all compositions x orders for N<=%d with duplicates. distinct_nontrivial = distinct hostile completion lengths + families.", maxN, hostDepth, hostN, v6N)
+	r.Coverage["rule"] = fmt.Sprintf("benign: every composition of N=1..%d 8-byte units into >=2 fragments x every arrival order x header length {20,24,40,60} (options on every fragment) and {24|20, 40|24, 60|20} (first fragment | later fragments: options that are not copied) x one duplicated fragment at every position, and for N<=3 every merge with the two fragments of a second datagram: nothing may be returned before the last missing fragment, then exactly one datagram whose payload bytes (which encode datagram id and offset) are the original, MF/offset cleared, Length = IHL*4+len(payload). hostile: every sequence of <=%d fragments over all [a,b)xMF for a %d-unit datagram: any datagram returned must consist only of bytes sent for their own offset, all of them received, ending at a seen last fragment. limits: undersized/oversize/overrun fragments refused, unfragmented and DF packets returned as the same pointer, DiscardOlderThan (every composition of 2..4 units x every arrival order x a discard before every arrival x every cut-off at and between the earlier arrival times). IPv6: all compositions x orders for N<=%d with duplicates. distinct_nontrivial = distinct hostile completion lengths + families.", maxN, hostDepth, hostN, v6N)
 	r.Assumptions = []string{"provenance encoding: payload byte = id<<6 | offset (datagrams of at most 64 bytes)", "8193-fragment list limit exercised with 8183 distinct fragments only (offset limit)"}
 	r.Finish()
 }
